@@ -16,7 +16,8 @@ RULE = (
     "oracle = local piecewise-linear / bilinear blend of the masters for every coordinate, advance, height, anchor, component offset, ascender and for the UFO-semantic "
     "lookup of every kerning pair in the union of master keys (rounded with floor(x+.5) when rounding is on); glyph set == default source's; when the rule fires the instance "
     "equals the rule-free instance with the two glyphs' outlines, widths, anchors, component/kerning/group references exchanged and code points kept; swapping twice "
-    "restores the instance; source snapshots unchanged; the n-th call equals a fresh Instantiator's result. Non-trivial = a non-master location with an intermediate or "
+    "restores the instance; source snapshots unchanged; the n-th call equals a fresh Instantiator's result; designspaces list their sources in either order and the first instance "
+    "equals the one of the oppositely listed family. Non-trivial = a non-master location with an intermediate or "
     "sparse master, or a firing rule. Distinct = case hash."
 )
 ASSUMPTIONS = [
